@@ -100,14 +100,22 @@ Lemma st2_cen : gen_fd_cen (gen_fd_cen (g z) (g (z + 1 + 1)) h) (gen_fd_cen (g (
 Proof. unfold g. fcbv. field. side. Qed.
 Lemma st2_mid : gen_fcb_mid (gen_fcb_mid (g z) (g (z + 1 + 1)) h) (gen_fcb_mid (g (z + 1 + 1)) (g (z + 1 + 1 + 1 + 1)) h) h = (1 + 1) * a.
 Proof. unfold g. fcbv. field. side. Qed.
-(* smoothing kernels reproduce affine functions away from the zero padding, and lose mass at it *)
+(* smoothing kernels reproduce affine functions; with a replicated neighbour they shift the value by a fraction of the step *)
 Lemma st_avg_prewitt : gen_avg_prewitt (f z) (f (z + 1)) (f (z + 1 + 1)) = f (z + 1).
 Proof. unfold f. fcbv. field. side. Qed.
 Lemma st_avg_sobel : gen_avg_sobel (f z) (f (z + 1)) (f (z + 1 + 1)) = f (z + 1).
 Proof. unfold f. fcbv. field. side. Qed.
-Lemma st_avg_sobel_pad : gen_avg_sobel 0 (f 0) (f 1) = of_Q 3 4 * f 0 + of_Q 1 4 * (a * h).
+Lemma st_avg_prewitt_lo : gen_avg_prewitt (f z) (f z) (f (z + 1)) = f z + of_Q 1 3 * (a * h).
 Proof. unfold f. fcbv. field. side. Qed.
-Lemma st_avg_prewitt_pad : gen_avg_prewitt 0 (f 0) (f 1) = of_Q 2 3 * f 0 + of_Q 1 3 * (a * h).
+Lemma st_avg_sobel_lo : gen_avg_sobel (f z) (f z) (f (z + 1)) = f z + of_Q 1 4 * (a * h).
+Proof. unfold f. fcbv. field. side. Qed.
+Lemma st_avg_prewitt_hi : gen_avg_prewitt (f z) (f (z + 1)) (f (z + 1)) = f (z + 1) + - of_Q 1 3 * (a * h).
+Proof. unfold f. fcbv. field. side. Qed.
+Lemma st_avg_sobel_hi : gen_avg_sobel (f z) (f (z + 1)) (f (z + 1)) = f (z + 1) + - of_Q 1 4 * (a * h).
+Proof. unfold f. fcbv. field. side. Qed.
+Lemma st_avg_prewitt_one : gen_avg_prewitt (f z) (f z) (f z) = f z.
+Proof. unfold f. fcbv. field. side. Qed.
+Lemma st_avg_sobel_one : gen_avg_sobel (f z) (f z) (f z) = f z.
 Proof. unfold f. fcbv. field. side. Qed.
 End Scalars.
 
@@ -217,25 +225,49 @@ Proof.
     rewrite !Q by lia. rewrite !zn_S. apply st2_mid; exact Hh.
 Qed.
 
-(* ---- smoothing of prewitt / sobel: identity on affine sequences away from the zero padding ---- *)
+(* ---- smoothing of prewitt / sobel (replicate padding): an affine sequence keeps its values in the interior and is
+        shifted by +- kb * (slope * h) at the first / last sample -- a shift that does not depend on anything but the slope
+        ALONG the smoothed axis, which is why derivatives along the other axes stay exact on the boundary ---- *)
 Lemma nth_avg1 (kern : K -> K -> K -> K) (l : list K) (i : nat) : (i < length l)%nat ->
-  nth i (avg1 kern l) 0 = kern (match i with O => 0 | S j => nth j l 0 end) (nth i l 0) (nth (S i) l 0).
+  nth i (avg1 kern l) 0 = kern (nth (Nat.pred i) l 0) (nth i l 0) (nth (nxt (length l) i) l 0).
 Proof.
   intro H. unfold avg1.
-  apply (nth_map_seq (fun i => kern (match i with O => 0 | S j => nth j l 0 end) (nth i l 0) (nth (S i) l 0))). exact H.
+  apply (nth_map_seq (fun i => kern (nth (Nat.pred i) l 0) (nth i l 0) (nth (nxt (length l) i) l 0))). exact H.
+Qed.
+
+Definition kb (m : fdmode) : K := match m with Prewitt => of_Q 1 3 | Sobel => of_Q 1 4 | _ => 0 end.
+Definition shiftc (m : fdmode) (n i : nat) : K :=
+  if (n =? 1)%nat then 0 else if (i =? 0)%nat then kb m else if (i =? n - 1)%nat then - kb m else 0.
+
+Theorem smooth_affine (m : fdmode) (n : nat) (a b h : K) (i : nat) : (i < n)%nat ->
+  nth i (smooth1 m (aff_seq a b h n)) 0 = a * (zn i * h) + b + shiftc m n i * (a * h).
+Proof.
+  intro Hi. unfold shiftc.
+  destruct m; try (cbn [smooth1 kb]; rewrite nth_aff by exact Hi;
+                   destruct (n =? 1)%nat; destruct (i =? 0)%nat; destruct (i =? n - 1)%nat; ring);
+  unfold smooth1; rewrite nth_avg1 by (rewrite length_aff; exact Hi); rewrite length_aff; unfold nxt, kb;
+  (destruct (n =? 1)%nat eqn:E1; [apply Nat.eqb_eq in E1; subst n; assert (i = 0)%nat by lia; subst i;
+     cbn [Nat.pred Nat.min Nat.sub]; rewrite !nth_aff by lia;
+     first [rewrite st_avg_prewitt_one|rewrite st_avg_sobel_one]; ring|apply Nat.eqb_neq in E1]);
+  (destruct (i =? 0)%nat eqn:E0; [apply Nat.eqb_eq in E0; subst i; cbn [Nat.pred];
+     replace (Nat.min 1 (n - 1)) with 1%nat by lia; rewrite !nth_aff by lia;
+     change (@zn K 1) with (@zn K (S 0)); rewrite zn_S;
+     first [rewrite st_avg_prewitt_lo|rewrite st_avg_sobel_lo]; ring|apply Nat.eqb_neq in E0]);
+  (destruct (i =? n - 1)%nat eqn:E2; [apply Nat.eqb_eq in E2; subst i;
+     replace (Nat.min (S (n - 1)) (n - 1)) with (n - 1)%nat by lia; replace (Nat.pred (n - 1)) with (n - 2)%nat by lia;
+     rewrite !nth_aff by lia; replace (n - 1)%nat with (S (n - 2)) by lia; rewrite zn_S;
+     first [rewrite st_avg_prewitt_hi|rewrite st_avg_sobel_hi]; ring|apply Nat.eqb_neq in E2]);
+  destruct i as [|j]; try lia; cbn [Nat.pred]; replace (Nat.min (S (S j)) (n - 1)) with (S (S j)) by lia;
+  rewrite !nth_aff by lia; rewrite !zn_S;
+  first [rewrite st_avg_prewitt|rewrite st_avg_sobel]; ring.
 Qed.
 
 Theorem smooth_affine_interior (m : fdmode) (n : nat) (a b h : K) (i : nat) : (1 <= i)%nat -> (i + 1 < n)%nat ->
   nth i (smooth1 m (aff_seq a b h n)) 0 = nth i (aff_seq a b h n) 0.
 Proof.
-  intros H1 H2. destruct m; try reflexivity; unfold smooth1; rewrite nth_avg1 by (rewrite length_aff; lia);
-  (destruct i as [|j]; [lia|]); rewrite !nth_aff by lia; rewrite !zn_S; [apply st_avg_prewitt|apply st_avg_sobel].
-Qed.
-
-(* ... and not at the zero-padded boundary: a constant c becomes 2/3 c (prewitt) resp. 3/4 c (sobel) there *)
-Theorem smooth_boundary_loses_mass (n : nat) (c : K) : (2 <= n)%nat ->
-  nth 0 (smooth1 Sobel (aff_seq 0 c 1 n)) 0 = of_Q 3 4 * c /\ nth 0 (smooth1 Prewitt (aff_seq 0 c 1 n)) 0 = of_Q 2 3 * c.
-Proof.
-  intro Hn. split; unfold smooth1; rewrite nth_avg1 by (rewrite length_aff; lia); rewrite !nth_aff by lia; fcbv; field; side.
+  intros H1 H2. rewrite smooth_affine by lia. rewrite nth_aff by lia. unfold shiftc.
+  replace (n =? 1)%nat with false by (symmetry; apply Nat.eqb_neq; lia).
+  replace (i =? 0)%nat with false by (symmetry; apply Nat.eqb_neq; lia).
+  replace (i =? n - 1)%nat with false by (symmetry; apply Nat.eqb_neq; lia). ring.
 Qed.
 End Proofs.
